@@ -351,7 +351,7 @@ def check_thomas(chk, lib, rule):
     m = TModel()
     it = Interp(lib, m)
     n = m.n
-    k = m.new_arr2(n, 'k')
+    k = m.new_arr2(n, 'k', sym='k')
 
     def sym1(name):
         a = m.new_arr1(n, name)
@@ -383,15 +383,22 @@ def check_thomas(chk, lib, rule):
         chk.ob(rule, "forward step: new diagonal = mid[j] - (low[j]/mid'[j-1]) * up[j-1]  (row j minus w * row j-1)", vmid == midj - w * upp, fw['where'],
                'fw-diag', str(vmid))
         car = fw['carried']
-        okc = chk.ob(rule, "forward sweep carries exactly one row temporary (found %s)" % sorted(car), len(car) == 1, fw['where'], 'fw-carry-one')
-        if okc:
-            nm = list(car)[0]
-            pre, post = car[nm]
-            c = A('carry:' + nm)
-            chk.ob(rule, "forward step: new rhs = rhs[j] - (low[j]/mid'[j-1]) * (updated rhs of row j-1, carried in `%s`)" % nm,
-                   vrhs == rhsj - w * c, fw['where'], 'fw-rhs', str(vrhs))
-            chk.ob(rule, "the carried temporary starts as rhs[0] = the row before the first eliminated row", pre == A('rhs[0]'), fw['where'], 'fw-carry-init', str(pre))
-            chk.ob(rule, "the carried temporary leaves the step holding the updated rhs of row j", post == vrhs, fw['where'], 'fw-carry-step', str(post))
+        prev_row = A('rhs[%s]' % (j - 1))
+        if not car and vrhs == rhsj - w * prev_row:
+            # the previous row is read from the array itself: in an increasing sweep that writes row j, row j-1 holds the value the
+            # previous step wrote (or the untouched row 0 in the first step)
+            chk.ob(rule, "forward step: new rhs = rhs[j] - (low[j]/mid'[j-1]) * (row j-1 of the right-hand side, updated by the previous step)",
+                   not fw['rev'], fw['where'], 'fw-rhs', str(vrhs))
+        else:
+            okc = chk.ob(rule, "forward sweep carries exactly one row temporary (found %s)" % sorted(car), len(car) == 1, fw['where'], 'fw-carry-one')
+            if okc:
+                nm = list(car)[0]
+                pre, post = car[nm]
+                c = A('carry:' + nm)
+                chk.ob(rule, "forward step: new rhs = rhs[j] - (low[j]/mid'[j-1]) * (updated rhs of row j-1, carried in `%s`)" % nm,
+                       vrhs == rhsj - w * c, fw['where'], 'fw-rhs', str(vrhs))
+                chk.ob(rule, "the carried temporary starts as rhs[0] = the row before the first eliminated row", pre == A('rhs[0]'), fw['where'], 'fw-carry-init', str(pre))
+                chk.ob(rule, "the carried temporary leaves the step holding the updated rhs of row j", post == vrhs, fw['where'], 'fw-carry-step', str(post))
         # the eliminated sub-diagonal entry: low[j] - w_eff * mid'[j-1] == 0 with w_eff recovered from the diagonal update
         weff = (midj - vmid) / upp
         chk.ob(rule, "the multiplier used eliminates the sub-diagonal entry: low[j] - w * mid'[j-1] == 0", (lowj - weff * midp).is_zero(), fw['where'], 'fw-eliminates')
@@ -410,11 +417,17 @@ def check_thomas(chk, lib, rule):
         (ik, vk) = list(gb.values())[0]
         chk.ob(rule, "backward sweep writes row j of k", str(ik) == bw['var'], bw['where'], 'bw-index')
         car = bw['carried']
-        if chk.ob(rule, "backward sweep carries exactly one row temporary (found %s)" % sorted(car), len(car) == 1, bw['where'], 'bw-carry-one'):
+        midj, upj, rhsj = A("mid'[%s]" % jb), A("up[%s]" % jb), A("rhs'[%s]" % jb)
+        next_row = A("k[%s]" % (jb + 1))
+        if not car and (midj * vk + upj * next_row - rhsj).is_zero():
+            # k[j+1] is read from k itself: in a decreasing sweep that writes row j, row j+1 holds the value the previous step wrote
+            # (or the last unknown, written before the sweep)
+            chk.ob(rule, "back-substitution satisfies row j of the eliminated system: mid'[j] k[j] + up[j] k[j+1] - rhs'[j] == 0 (k[j+1] read from the row solved by the previous step)",
+                   bw['rev'] and last is not None, bw['where'], 'bw-row', str(vk))
+        elif chk.ob(rule, "backward sweep carries exactly one row temporary (found %s)" % sorted(car), len(car) == 1, bw['where'], 'bw-carry-one'):
             nm = list(car)[0]
             pre, post = car[nm]
             c = A('carry:' + nm)
-            midj, upj, rhsj = A("mid'[%s]" % jb), A("up[%s]" % jb), A("rhs'[%s]" % jb)
             chk.ob(rule, "back-substitution satisfies row j of the eliminated system: mid'[j] k[j] + up[j] k[j+1] - rhs'[j] == 0 (k[j+1] carried in `%s`)" % nm,
                    (midj * vk + upj * c - rhsj).is_zero(), bw['where'], 'bw-row', str(vk))
             chk.ob(rule, "the carried temporary starts as k[len-1]", last is not None and pre == last[1], bw['where'], 'bw-carry-init', str(pre))
@@ -814,6 +827,12 @@ class IndModel(SModel):
                 return a0
         if name == 'std::convert::Into::into' and isinstance(a0, Enum) and a0.adt == RB:
             return self.interp.call_norm(FROM_RB, [a0], e)
+        if last == 'len_of' and isinstance(a0, Obj) and a0.kind == 'dyn':
+            return Num(A('len(%s)' % a0.d['role']))
+        if name == 'std::iter::Iterator::zip' and isinstance(a0, Obj) and a0.kind in ('dyniter', 'dynzip'):
+            b = deref_all(args[1])
+            if isinstance(b, Obj) and b.kind in ('dyniter', 'dynzip'):
+                return Obj('dynzip', tree=('zip', a0, b))
         if last == 'fold_while' and isinstance(a0, Obj) and a0.kind == 'zip':
             parts = a0.d['parts']
             subs = []
@@ -827,6 +846,29 @@ class IndModel(SModel):
         if last == 'into_inner' and isinstance(a0, Enum) and a0.adt == 'ndarray::FoldWhile':
             return a0.fields['0']
         return super().call(name, cal, args, e, frame)
+
+
+def _dyn_elem(node):
+    if node.kind == 'dyniter':
+        o = node.d['of']
+        return Obj('dyn', role=o.d['role'], depth=o.d['depth'] + 1, parent_axis=node.d['axis'])
+    _, l, r = node.d['tree']
+    return Tup([_dyn_elem(l), _dyn_elem(r)])
+
+
+def _indmodel_for_loop(self, iterable, pat, body, frame, e):
+    it = deref_all(iterable)
+    if isinstance(it, Obj) and it.kind in ('dynzip', 'dyniter'):
+        elem = _dyn_elem(it)
+        if not self.interp.match_pat(pat, ValPlace(elem), frame):
+            raise Unsupported("dispatcher loop pattern", e)
+        self.loop_form = True
+        self.interp.eval(body, frame)        # an error leaves through `?` (early return)
+        return Unit()
+    return SModel.for_loop(self, iterable, pat, body, frame, e)
+
+
+IndModel.for_loop = _indmodel_for_loop
 
 
 def check_dispatcher(chk, lib, rule):
@@ -860,11 +902,11 @@ def check_dispatcher(chk, lib, rule):
         chk.ob(rule, "rank > 1: the recursion receives the co-iterated sub-views of k, data and boundary (in these roles) and the same axis x", ok, where, 'dispatch-recursion-' + res)
         if res == 'err':
             same = isinstance(out, Enum) and out.variant == 'Err' and deref_all(out.fields['0']) is m.ret_err
-            step = m.fold_steps[0].variant if m.fold_steps else None
-            chk.ob(rule, "rank > 1: an error of a lane stops the iteration (FoldWhile::%s) and is returned unchanged" % step, same and step == 'Done', where, 'dispatch-error')
+            step = m.fold_steps[0].variant if m.fold_steps else ('early return' if getattr(m, 'loop_form', False) else None)
+            chk.ob(rule, "rank > 1: an error of a lane stops the iteration (%s) and is returned unchanged" % step, same and step in ('Done', 'early return'), where, 'dispatch-error')
         else:
             chk.ob(rule, "rank > 1: success continues with the next lane and finally returns Ok", isinstance(out, Enum) and out.variant == 'Ok' and
-                   m.fold_steps and m.fold_steps[0].variant == 'Continue', where, 'dispatch-continue')
+                   ((m.fold_steps and m.fold_steps[0].variant == 'Continue') or getattr(m, 'loop_form', False)), where, 'dispatch-continue')
     # ---- leaf: the lane's own boundary element, converted variant by variant
     vl, vr = Num(A('bl')), Num(A('br'))
     cases = {'NotAKnot': Enum(RB, 'NotAKnot'), 'Natural': Enum(RB, 'Natural'), 'Clamped': Enum(RB, 'Clamped'),
